@@ -299,3 +299,108 @@ func H_C07_noResidue() {
 	vfAssert(err == nil, "renders")
 	vfAssert(out == "false|false|false|false|false", "no variable of an earlier execution is visible")
 }
+
+// H_C07_programs (thorough): generated programs of 5 statements over one variable - declare
+// (x := "vK"), assign (x = "vK"), read, open a body (if, else branch, range, block
+// definition, content of a yield) and close it - executed by jet and by a reference scope
+// stack (declare binds in the innermost scope, assign rebinds the innermost visible
+// binding and fails if there is none, a body's bindings end with the body): same output,
+// and an error exactly when the reference assigns to an undeclared name.
+//
+//gosym:reach rendered,failed
+//gosym:thorough-only
+//gosym:opts maxpaths=400000 wall=1500
+func H_C07_programs() {
+	const n = 5
+	type scope struct {
+		declared bool
+		val      string
+	}
+	stack := []scope{{}}
+	var closers []string // text the reference emits when the body closes
+	src, want := "", ""
+	fails := false
+	lookup := func() int {
+		for k := len(stack) - 1; k >= 0; k-- {
+			if stack[k].declared {
+				return k
+			}
+		}
+		return -1
+	}
+	read := func() {
+		src += `[{{ isset(x) ? x : "-" }}]`
+		if k := lookup(); k >= 0 {
+			want += "[" + stack[k].val + "]"
+		} else {
+			want += "[-]"
+		}
+	}
+	for s := 0; s < n && !fails; s++ {
+		v := "v" + ndItoa(s)
+		switch tok := ndChoice("t"+ndItoa(s), 9); tok {
+		case 0:
+			src += `{{ x := "` + v + `" }}`
+			stack[len(stack)-1] = scope{true, v}
+		case 1:
+			src += `{{ x = "` + v + `" }}`
+			if k := lookup(); k >= 0 {
+				stack[k].val = v
+			} else {
+				fails = true
+			}
+		case 2:
+			read()
+		case 3:
+			src += `{{ if true }}`
+			stack, closers = append(stack, scope{}), append(closers, "")
+		case 4:
+			src += `{{ if false }}no{{ else }}`
+			stack, closers = append(stack, scope{}), append(closers, "")
+		case 5:
+			src += `{{ range one }}`
+			stack, closers = append(stack, scope{}), append(closers, "")
+		case 6:
+			src += `{{ block b` + ndItoa(s) + `() }}`
+			stack, closers = append(stack, scope{}), append(closers, "")
+		case 7:
+			src += `{{ yield w() content }}`
+			want += "<"
+			stack, closers = append(stack, scope{}), append(closers, ">")
+		default:
+			if len(stack) > 1 {
+				src += `{{ end }}`
+				want += closers[len(closers)-1]
+				stack, closers = stack[:len(stack)-1], closers[:len(closers)-1]
+			} else {
+				read()
+			}
+		}
+	}
+	for !fails && len(stack) > 1 {
+		src += `{{ end }}`
+		want += closers[len(closers)-1]
+		stack, closers = stack[:len(stack)-1], closers[:len(closers)-1]
+	}
+	if !fails {
+		read()
+	} else {
+		for range closers {
+			src += `{{ end }}`
+		}
+	}
+	set := hxSet(nil, "/lib.jet", `{{ block w() }}<{{ yield content }}>{{ end }}`, "/m.jet", `{{ import "/lib.jet" }}`+src)
+	vars := make(VarMap)
+	vars.Set("one", []int{1})
+	out, err := hxExec(set, "/m.jet", vars, nil)
+	vfNote(src)
+	if fails {
+		vfReach("failed")
+		vfAssert(err != nil, "assigning to a name that is not visible fails")
+		return
+	}
+	vfReach("rendered")
+	vfAssert(err == nil, "the program executes")
+	vfNote(out)
+	vfAssert(out == want, "bindings are visible exactly from := to the end of the enclosing body; = rebinds the innermost visible one")
+}
